@@ -175,6 +175,20 @@ def hintBack (c : FastOps) (p : Nat) : Nat → Nat → Nat → Option (Option Na
         | none => none
         | some _ => hintBack c p fuel prev.p prev.relv
 
+/-- `debug_assert!(… "Hints must point to ops with relevant variable.")` -/
+def hintHasVar (c : FastOps) (var : Nat) (phint : Option Nat) : Option Unit :=
+  match phint with
+  | none => some ()
+  | some ph => (c.nodeExpect ph).bind fun nd => (nd.op.indexOfVar var).map fun _ => ()
+
+/-- `let phint = phint.and_then(|mut phint| { … while phint >= p { … } Some(phint) })` -/
+def hintBackStart (c : FastOps) (p var : Nat) (phint : Option Nat) : Option (Option Nat) :=
+  match phint with
+  | none => some none
+  | some ph =>
+    (c.nodeExpect ph).bind fun nd =>
+    (nd.op.indexOfVar var).bind fun relv => c.hintBack p (c.ops.length + 1) ph relv
+
 /-- `substate[subvar] = x` (index panic) -/
 def subWrite (sub : List Bool) (subvar : Nat) (x : Bool) : Option (List Bool) :=
   if subvar < sub.length then some (sub.set subvar x) else none
@@ -183,20 +197,12 @@ def subWrite (sub : List Bool) (subvar : Nat) (x : Bool) : Option (List Bool) :=
 def hintSubVar (c : FastOps) (p : Nat) (state sub : List Bool) (subvar : Nat) (phint : Option Nat)
     (var : Nat) : Option (List Bool) :=
   (c.hintIsOp phint).bind fun _ =>
-  -- debug_assert!("Hints must point to ops with relevant variable.")
-  (match phint with
-    | none => some ()
-    | some ph => (c.nodeExpect ph).bind fun nd => (nd.op.indexOfVar var).map fun _ => ()).bind fun _ =>
+  (c.hintHasVar var phint).bind fun _ =>
   -- substate[subvar] = state[var]
   (state[var]?).bind fun sv =>
   (subWrite sub subvar sv).bind fun sub =>
   (c.varStartIdx var).bind fun varStart =>
-  -- let phint = phint.and_then(|mut phint| { … while phint >= p { … } Some(phint) })
-  (match phint with
-    | none => some none
-    | some ph =>
-      (c.nodeExpect ph).bind fun nd =>
-      (nd.op.indexOfVar var).bind fun relv => c.hintBack p (c.ops.length + 1) ph relv).bind fun phint =>
+  (c.hintBackStart p var phint).bind fun phint =>
   (c.hintUseExact p var phint varStart).bind fun useExact =>
   match useExact with
   | some ue =>
